@@ -6,20 +6,6 @@ import Ysgo.Model.Rng
 namespace Ysgo
 namespace F64
 
-theorem P63_cast : ((P63 : ℕ) : ℚ) = 2 ^ 63 := by norm_num [P63]
-
-theorem representable_two_pow (k : ℕ) (hk : k < 1024) : Representable ((2 : ℚ) ^ k) := by
-  refine ⟨1, k, by unfold P53; omega, by omega, ?_, ?_⟩
-  · have : Nat.log2 1 = 0 := by decide
-    rw [this]; omega
-  · rw [abs_of_pos (by positivity), Nat.cast_one, one_mul, zpow_natCast]
-
-theorem representable_one : Representable (1 : ℚ) := by
-  simpa using representable_two_pow 0 (by omega)
-
-theorem two_pow_lt_big (k : ℕ) (hk : k < 1023) : (2 : ℚ) ^ k < 2 ^ (1023 : ℤ) := by
-  rw [← zpow_natCast, two_zpow_lt_iff]; omega
-
 /-- `float64(1<<63)` is exactly `2^63` -/
 theorem ofNat_P63 : Finite (ofNat P63) ∧ signBit (ofNat P63) = false ∧ val (ofNat P63) = 2 ^ 63 := by
   have h := ofNat_val P63 (by rw [P63_cast]; exact representable_two_pow 63 (by omega))
